@@ -305,6 +305,9 @@ def run(ctx):
             if rng.random() < 0.6:
                 ops[-2]["cls"] = rng.choice(ci.CYC_CLASSES); ops[-2]["sup"] = False
                 ops[-1]["cls"] = rng.choice([c for c in ci.CYC_CLASSES if c not in ("MinFlowDecompCycles",)]); ops[-1]["sup"] = False
+        for o in ops:
+            if o["cls"] == "MinSetCover":
+                o["solve"] = True                # its is_solved() raises before solve() by design
         init = sh.snapshot()
         steps = []
         before = init
